@@ -71,7 +71,21 @@ pub mod shims {
     use crate::acme_common::error::Error;
     use std::time::Duration;
     verus! {
-    pub struct Certificate { pub opaque: u8 }
+    // the fields of certificate.rs::Certificate a renewal task may look at (their content is decided elsewhere)
+    pub struct FileManager { pub opaque: u8 }
+    pub struct Certificate { pub account_name: String, pub endpoint_name: String, pub crt_name: String, pub kp_reuse: bool,
+        pub renew_delay: Duration, pub random_early_renew: Duration, pub file_manager: FileManager }
+    pub mod storage {
+        use vstd::prelude::*;
+        verus! {
+        // storage.rs::certificate_files_exists (unit storage): reads the disk, changes nothing; the answer is whatever the disk says
+        #[verifier::external_body]
+        pub fn certificate_files_exists(fm: &super::FileManager) -> bool { unimplemented!() }
+        #[verifier::external_body]
+        pub fn account_files_exists(fm: &super::FileManager) -> bool { unimplemented!() }
+        }
+    }
+    pub use storage::{certificate_files_exists, account_files_exists};
     pub struct AccountSync { pub opaque: u8 }
     pub struct EndpointSync { pub opaque: u8 }
     impl Clone for AccountSync { #[verifier::external_body] fn clone(&self) -> (r: Self) ensures r == *self { unimplemented!() } }
@@ -98,6 +112,14 @@ pub mod shims {
         { unimplemented!() }
         #[verifier::external_body]
         pub fn warn(&self, msg: &str) { unimplemented!() }
+        #[verifier::external_body]
+        pub fn info(&self, msg: &str) { unimplemented!() }
+        #[verifier::external_body]
+        pub fn debug(&self, msg: &str) { unimplemented!() }
+        #[verifier::external_body]
+        pub fn trace(&self, msg: &str) { unimplemented!() }
+        #[verifier::external_body]
+        pub fn get_id(&self) -> String { unimplemented!() }
         // verified in unit `schedule`; here: the call is recorded
         #[verifier::external_body]
         pub fn call_post_operation_hooks(&self, status: &str, is_success: bool, Tracked(w): Tracked<&mut World>) -> (r: Result<(), Error>)
